@@ -108,7 +108,11 @@ func solveOne(o *Oblig, opts SolveOpts) *Result {
 	r := &Result{O: o, File: file}
 	if o.Expect == "sat" {
 		// vacuity canary: the hypotheses must not be refutable
-		a := runSolver(context.Background(), "z3-new", file, 2, opts.Seed)
+		ct := 2
+		if opts.Thorough {
+			ct = 15 // thorough: try harder to get a definite reachable/unreachable answer
+		}
+		a := runSolver(context.Background(), "z3-new", file, ct, opts.Seed)
 		r.Answers = append(r.Answers, a)
 		r.Solver, r.Secs = a.Solver, a.Secs
 		if a.Result == "unsat" {
